@@ -37,7 +37,7 @@ func init() {
 		},
 		Gates: func(tier string) map[string]int64 {
 			return map[string]int64{"outputs": 5000, "layout_pairs": 1000, "inputs": 100000, "accepted": 5000, "rejected": 50000, "accepted_after_mutation": 100, "mut:number": 500, "mut:escape": 100, "mut:literal": 100, "mut:structure": 500,
-				"target:value": 10000, "target:typed": 10000, "target:discard": 10000, "target:any": 1000, "enumerated_strings": 8000, "invalid_json_offered": 50000}
+				"target:value": 10000, "target:typed": 10000, "target:discard": 10000, "target:any": 1000, "escape_grammar_cases": 10000, "enumerated_strings": 8000, "invalid_json_offered": 50000}
 		},
 		Run: runC21,
 	})
@@ -374,8 +374,39 @@ func c21Enumerate(c *core.Ctx, b core.Batch) {
 	rec2(nil)
 }
 
+// c21Escapes: systematic string-escape grammar corners - a \u escape (BMP,
+// high or low surrogate) followed by every two-byte "introducer" over a small
+// alphabet and four hex digits; every one-character escape; truncated escapes.
+func c21Escapes(c *core.Ctx) {
+	firsts := []string{`\ud83d`, `\uD83D`, `\udbff`, `\ud800`, `\ude00`, `\u0041`, `\uffff`}
+	intro := []byte{'\\', 'u', 'U', 'x', 'q', '"', '/', 'd', ' ', '0'}
+	tails := []string{"de00", "dc00", "dfff", "0041", "d83d", "zzzz", "de0", ""}
+	targets := []c21Target{c21Targets[0], c21Targets[2], c21Targets[3], c21Targets[7], c21Targets[8]}
+	for _, f := range firsts {
+		for _, a := range intro {
+			for _, b := range intro {
+				for _, t := range tails {
+					doc := `"` + f + string([]byte{a, b}) + t + `"`
+					for _, tg := range targets {
+						c.Count("escape_grammar_cases")
+						c21Offer(c, tg, doc, "")
+					}
+				}
+			}
+		}
+	}
+	for ch := 0; ch < 256; ch++ {
+		for _, tg := range targets {
+			c.Count("escape_grammar_cases")
+			c21Offer(c, tg, `"a\`+string([]byte{byte(ch)})+`b"`, "")
+			c21Offer(c, tg, `"\u00`+string([]byte{byte(ch)})+`1"`, "")
+		}
+	}
+}
+
 // (b3) token soups
 func c21Soup(c *core.Ctx) {
+	c21Escapes(c)
 	pool := []string{"{", "}", "[", "]", ",", ":", `"a"`, `"b"`, `"@type"`, `"value"`, "1", "-1", "1.5", "1e5", "1e", "true", "false", "null", `""`, " ", "\n", `"A"`, `"😀"`, "0", "-", "1E+2", `"singularInt32"`, `"type.googleapis.com/google.protobuf.Value"`}
 	for i := 0; i < c.Scale(60000, 1000000); i++ {
 		r := c.Rng(uint64(i))
